@@ -247,7 +247,7 @@ Qed.
 
 Lemma unbond_stake : forall s a s', sinv s -> unbond s a = Ok s' -> sinv s'.
 Proof.
-  intros s a s' (R & S1 & S2 & S3 & S4) H. unfold unbond in H. guards H.
+  intros s a s' (R & S1 & S2 & S3 & S4) H. unfold unbond, unbond_gen in H. guards H.
   inversion H; subst; clear H. rename o into r.
   assert (Hr : recs s a = Some r) by assumption.
   assert (Hp : ~ In a (proposal s)) by (intro X; apply memZ_In in X; congruence).
